@@ -12,6 +12,7 @@ import BitstringModel.Proofs.C03Replace
 
 namespace BM.C03
 open BM
+open Replace
 
 /-! ### occurrences -/
 
@@ -19,40 +20,41 @@ open BM
 theorem occ_mem_iff (l old : Bits) (s e : Nat) (al : Bool) (p : Nat) :
     p ∈ occ l old s e al ↔
       (s ≤ p ∧ p + old.length ≤ e ∧ slc l p (p + old.length) = old ∧ (al = true → p % 8 = 0)) := by
-  sorry
+  exact occ_mem_iff' l old s e al p
 
 /-- … in ascending order. -/
 theorem occ_sorted (l old : Bits) (s e : Nat) (al : Bool) : (occ l old s e al).Pairwise (· < ·) := by
-  sorry
+  exact occ_sorted' l old s e al
 
 /-! ### the selection -/
 
 /-- The selected positions are occurrences, in order … -/
 theorem select_sublist (oldLen : Nat) (b : Option Nat) (m : Nat) (xs : List Nat) :
     (Spec.select oldLen b m xs).Sublist xs := by
-  sorry
+  exact select_sublist' oldLen b m xs
 
 /-- … do not overlap (each starts at or after the end of the previous one) … -/
 theorem select_nonoverlap (oldLen : Nat) (b : Option Nat) (m : Nat) (xs : List Nat) :
     (Spec.select oldLen b m xs).Pairwise (fun p q => p + oldLen ≤ q) ∧ ∀ p ∈ Spec.select oldLen b m xs, m ≤ p := by
-  sorry
+  exact ⟨select_pairwise oldLen b m xs, select_ge oldLen b m xs⟩
 
 /-- … respect the limit … -/
 theorem select_le_budget (oldLen c m : Nat) (xs : List Nat) : (Spec.select oldLen (some c) m xs).length ≤ c := by
-  sorry
+  exact select_le_budget' oldLen c m xs
 
 /-- … and are greedy: an occurrence that was passed over overlaps a chosen one, or the budget was used up. -/
 theorem select_maximal (oldLen : Nat) (hpos : 0 < oldLen) (m : Nat) (xs : List Nat) (hs : xs.Pairwise (· < ·))
     (x : Nat) (hx : x ∈ xs) (hm : m ≤ x) (hnot : x ∉ Spec.select oldLen none m xs) :
     ∃ p ∈ Spec.select oldLen none m xs, p < x ∧ x < p + oldLen := by
-  sorry
+  have _ := hpos  -- (not needed: with `oldLen = 0` nothing is ever passed over)
+  exact select_maximal' oldLen m xs hs x hx hm hnot
 
 /-- The loop of `_replace` (first match always taken, later ones iff `x ≥ last + len(old)`, `break` when `count`
     is reached) computes the greedy selection.  `count` is what `replace` passes on: `0 if count is None else count`,
     never 0 for a given count (that case returned earlier). -/
 theorem collect_eq_select (oldLen : Nat) (count : Option Int) (hc : count ≠ some 0) (xs : List Nat) :
     Alg.collect oldLen (count.getD 0) xs [] = Spec.select oldLen (Spec.budget count) 0 xs := by
-  sorry
+  exact collect_eq_select' oldLen count hc xs
 
 /-! ### the rebuild -/
 
@@ -61,7 +63,7 @@ theorem collect_eq_select (oldLen : Nat) (count : Option Int) (hc : count ≠ so
 theorem rebuild_eq_spliceAll (l new : Bits) (oldLen : Nat) (p0 : Nat) (rest : List Nat)
     (hno : (p0 :: rest).Pairwise (fun p q => p + oldLen ≤ q)) (hin : ∀ p ∈ p0 :: rest, p + oldLen ≤ l.length) :
     slc l 0 p0 ++ Alg.rebuildTail l oldLen new p0 rest = Spec.spliceAll l oldLen new (p0 :: rest) := by
-  sorry
+  rw [slc_zero, spliceAll_closed l new oldLen p0 rest hno hin]
 
 /-! ### replace -/
 
@@ -70,7 +72,43 @@ theorem rebuild_eq_spliceAll (l new : Bits) (oldLen : Nat) (p0 : Nat) (rest : Li
 theorem replace_eq_spec_partial (l : Bits) (old new : Operand) (s e : Option Int) (count : Option Int) (al : Bool)
     (h : replaceCountZeroUnchecked l old s e count = false) :
     Alg.replace l old new s e count al = Spec.replace l (old.val l) (new.val l) s e count al := by
-  sorry
+  unfold replaceCountZeroUnchecked at h
+  unfold Alg.replace
+  by_cases hc : count = some 0
+  · subst hc
+    simp only [beq_self_eq_true, Bool.true_and, Bool.or_eq_false_iff, beq_eq_false_iff_ne] at h
+    obtain ⟨ho, hv⟩ := h
+    rw [if_pos rfl]
+    cases hvs : validateSlice l.length s e with
+    | error err => rw [hvs] at hv; cases hv
+    | ok az =>
+      obtain ⟨a, z⟩ := az
+      rw [replace_of_ok l (old.val l) (new.val l) s e (some 0) al a z
+        (fun h0 => ho (by rw [h0]; rfl)) hvs]
+      have hb : Spec.budget (some 0) = some 0 := by simp [Spec.budget]
+      rw [hb, select_zero]
+      rfl
+  · rw [if_neg hc]
+    unfold Spec.replace
+    split
+    · rfl
+    · cases hvs : validateSlice l.length s e with
+      | error err => rfl
+      | ok az =>
+        obtain ⟨a, z⟩ := az
+        simp only
+        unfold Alg._replace
+        simp only
+        rw [collect_eq_select' _ count hc]
+        have hf := sel_facts l (old.val l) a z al (Spec.budget count)
+        have hz := (validateSlice_ok hvs).2
+        generalize Spec.select (old.val l).length (Spec.budget count) 0 (occ l (old.val l) a z al) = sel at hf
+        cases sel with
+        | nil => rfl
+        | cons p0 rest =>
+          simp only
+          rw [slc_zero, spliceAll_closed l (new.val l) (old.val l).length p0 rest hf.1
+            (fun p hp => by have := (hf.2 p hp).2; omega)]
 
 theorem replace_count_zero_witness :
     Alg.replace [false, true] (.lit [true]) (.lit [true]) (some 8) (some 9) (some 0) false = .ok (0, [false, true]) ∧
@@ -84,36 +122,103 @@ theorem replace_count (l old new r : Bits) (s e : Option Int) (count : Option In
     (h : Spec.replace l old new s e count al = .ok (k, r)) (hv : validateSlice l.length s e = .ok (a, z)) :
     k = (Spec.select old.length (Spec.budget count) 0 (occ l old a z al)).length ∧
     (∀ c : Nat, count = some (c : Int) → k ≤ c) := by
-  sorry
+  obtain ⟨_, a', z', hv', hk, _⟩ := replace_ok h
+  rw [hv] at hv'
+  simp only [Except.ok.injEq, Prod.mk.injEq] at hv'
+  obtain ⟨rfl, rfl⟩ := hv'
+  refine ⟨hk, ?_⟩
+  intro c hc
+  subst hc
+  have hb : Spec.budget (some (c : Int)) = some c := by
+    simp [Spec.budget]
+  rw [hk, hb]
+  exact select_le_budget' _ _ _ _
 
 /-- Length: each replacement trades `|old|` bits for `|new|` bits. -/
 theorem replace_length (l old new r : Bits) (s e : Option Int) (count : Option Int) (al : Bool) (k : Nat)
     (h : Spec.replace l old new s e count al = .ok (k, r)) :
     r.length + k * old.length = l.length + k * new.length := by
-  sorry
+  obtain ⟨_, a, z, hv, hk, hr⟩ := replace_ok h
+  have hf := sel_facts l old a z al (Spec.budget count)
+  have hz := (validateSlice_ok hv).2
+  generalize Spec.select old.length (Spec.budget count) 0 (occ l old a z al) = sel at hf hk hr
+  subst hk hr
+  cases sel with
+  | nil => simp [spliceAll_nil]
+  | cons p0 rest =>
+    have hin : ∀ p ∈ p0 :: rest, p + old.length ≤ l.length := fun p hp => by
+      have := (hf.2 p hp).2; omega
+    have h0 := hin p0 List.mem_cons_self
+    have := rebuildTail_length l new old.length p0 rest hf.1 hin
+    rw [spliceAll_closed l new old.length p0 rest hf.1 hin]
+    simp only [List.length_append, List.length_take, List.length_cons]
+    rw [Nat.min_eq_left (by omega)]
+    omega
 
 /-- Frame: the bits before `start` and the bits from `end` on are untouched (the latter shifted as a block). -/
 theorem replace_frame (l old new r : Bits) (s e : Option Int) (count : Option Int) (al : Bool) (k a z : Nat)
     (h : Spec.replace l old new s e count al = .ok (k, r)) (hv : validateSlice l.length s e = .ok (a, z)) :
     r.take a = l.take a ∧ r.drop (r.length - (l.length - z)) = l.drop z := by
-  sorry
+  obtain ⟨_, a', z', hv', hk, hr⟩ := replace_ok h
+  rw [hv] at hv'
+  simp only [Except.ok.injEq, Prod.mk.injEq] at hv'
+  obtain ⟨rfl, rfl⟩ := hv'
+  have hf := sel_facts l old a z al (Spec.budget count)
+  have hz := (validateSlice_ok hv).2
+  generalize Spec.select old.length (Spec.budget count) 0 (occ l old a z al) = sel at hf hk hr
+  subst hr
+  cases sel with
+  | nil =>
+    refine ⟨rfl, ?_⟩
+    rw [spliceAll_nil]
+    congr 1
+    omega
+  | cons p0 rest =>
+    have hin : ∀ p ∈ p0 :: rest, p + old.length ≤ l.length := fun p hp => by
+      have := (hf.2 p hp).2; omega
+    have h0 := hf.2 p0 List.mem_cons_self
+    rw [spliceAll_closed l new old.length p0 rest hf.1 hin]
+    constructor
+    · rw [List.take_append_of_le_length (by rw [List.length_take]; omega), List.take_take,
+        Nat.min_eq_left (by omega)]
+    · obtain ⟨pre, hpre⟩ := rebuildTail_suffix l new old.length z p0 rest (fun p hp => (hf.2 p hp).2)
+      rw [hpre, ← List.append_assoc]
+      apply List.drop_left'
+      simp only [List.length_append, List.length_drop]
+      omega
 
 theorem replace_no_match (l old new : Bits) (s e : Option Int) (count : Option Int) (al : Bool) (a z : Nat)
     (ho : old ≠ []) (hv : validateSlice l.length s e = .ok (a, z)) (hnone : occ l old a z al = []) :
     Spec.replace l old new s e count al = .ok (0, l) := by
-  sorry
+  rw [replace_of_ok l old new s e count al a z ho hv, hnone, select_nil]
+  rfl
 
 /-- One occurrence, replaced: the textbook splice. -/
 theorem replace_single (l old new : Bits) (s e : Option Int) (count : Option Int) (al : Bool) (a z p : Nat)
     (ho : old ≠ []) (hc : count ≠ some 0) (hv : validateSlice l.length s e = .ok (a, z))
     (hone : occ l old a z al = [p]) :
     Spec.replace l old new s e count al = .ok (1, l.take p ++ new ++ l.drop (p + old.length)) := by
-  sorry
+  rw [replace_of_ok l old new s e count al a z ho hv, hone]
+  have hsel : Spec.select old.length (Spec.budget count) 0 [p] = [p] := by
+    rcases budget_cases count hc with ⟨hb, _⟩ | ⟨c, hpos, hb, _⟩
+    · rw [hb, select_cons_none, if_pos (Nat.zero_le _), select_nil]
+    · obtain ⟨k, rfl⟩ : ∃ k, c = k + 1 := ⟨c - 1, by omega⟩
+      rw [hb, select_cons_succ, if_pos (Nat.zero_le _), select_nil]
+  rw [hsel]
+  rfl
 
 theorem replace_errors (l old new : Bits) (s e : Option Int) (count : Option Int) (al : Bool) :
     (old = [] → Spec.replace l old new s e count al = .error .value) ∧
     (validateSlice l.length s e = .error .value → Spec.replace l old new s e count al = .error .value) := by
-  sorry
+  constructor
+  · intro ho
+    subst ho
+    rfl
+  · intro hv
+    unfold Spec.replace
+    split
+    · rfl
+    · rw [hv]
 
 /-! ### non-vacuity -/
 example : Alg.replace [true, true, true, true] (.lit [true, true]) (.lit [false]) none none (some 2) false = .ok (2, [false, false]) := by decide
